@@ -35,7 +35,9 @@ func newDone(x *vs.Exec) *done { return &done{x: x, fin: map[string]bool{}} }
 
 func (d *done) goIn(dom, name string, f func()) {
 	d.names = append(d.names, name)
+	d.x.Tracked.Add(1)
 	d.x.Go(dom, func() {
+		defer d.x.Tracked.Add(-1)
 		defer func() {
 			if r := recover(); r != nil {
 				d.x.Fail("PANIC", "%s panicked: %v", name, r)
